@@ -25,7 +25,8 @@ the guard is a recognised idiom (short Cursor read, tag not above the previous t
 Tag::from_wire / add_field / a Cursor read; anything else is reported as a rejection the reference does not make.
 (4) Writer/reader agreement: encode writes count, offsets, tags, values in that order; every byteorder read/write in message.rs and request.rs is
 LittleEndian; encode_framed writes magic, u32 LE length of the encoding, the encoding; request.rs compares buf[0..8] with the same magic constant,
-reads the length from buf[8..12] and parses buf[12..].
+reads the length from buf[8..12] and parses buf[12..].  Every layout write of encode (count, offsets, tags, values) is control-dependent only on loop iteration and on the
+message's shape (len(tags), len(values)), never on the field data, and the offset loop does not run over all of self.values (the header has one offset fewer than values).
 """
 NOT_DECIDED = "equality with a reference decoder over all byte strings, round-trip and canonical re-encoding as value-level facts"
 TRUSTED = ["byteorder ReadBytesExt/WriteBytesExt", "std io::Cursor/Read", "derived PartialOrd on a field-less enum compares declaration indices"]
